@@ -1212,8 +1212,11 @@ def _gen_file(src_dir, name, fn, what, imports, ns, opens):
 
 def generate_group(src_dir):
     """third generated file: partition loop and built-in reducers of Table.aggregate / Table.window"""
-    return _gen_file(src_dir, "group", translate_group, "Partition loop and the six built-in reducers of Table.aggregate / Table.window, "
-                     "translated; equivalence theorems in Serif/Tie/Group.lean.", "import Serif.Prelude", "Serif.Gen.TG", "open Serif")
+    def both(tsrc):
+        return translate_group(tsrc) + translate_vector_reductions(open(os.path.join(src_dir, "vector.py")).read())
+    return _gen_file(src_dir, "group", both, "Partition loop and the six built-in reducers of Table.aggregate / Table.window, and the "
+                     "whole-column reductions of Vector, translated; equivalence theorems in Serif/Tie/Group.lean.",
+                     "import Serif.Prelude", "Serif.Gen.TG", "open Serif")
 
 
 # ---------------------------------------------------------------------------------------------
@@ -1269,8 +1272,12 @@ class _Reducer:
             self.fail(node)
         if isinstance(node, ast.Name):
             if node.id in env:
+                if env[node.id] == "boolint":
+                    return f"(if {_ln(node.id)} then (1 : Int) else (0 : Int))", "int"      # a bool used as a number
                 return _ln(node.id), env[node.id]
             self.fail(node)
+        if isinstance(node, ast.Attribute) and _u(node) in env:
+            return env["@" + _u(node)], env[_u(node)]
         if isinstance(node, ast.Call) and isinstance(node.func, ast.Name) and len(node.args) == 1 and not node.keywords:
             f, a = node.func.id, node.args[0]
             if f == "len":
@@ -1307,8 +1314,8 @@ class _Reducer:
                 a, b = self.as_rat(l, lt), self.as_rat(r, rt)
                 if a and b:
                     return f"({a} / {b})", "rat"
-            if isinstance(node.op, (ast.Add, ast.Sub)):
-                sym = "+" if isinstance(node.op, ast.Add) else "-"
+            if isinstance(node.op, (ast.Add, ast.Sub, ast.Mult)):
+                sym = "+" if isinstance(node.op, ast.Add) else "-" if isinstance(node.op, ast.Sub) else "*"
                 if "rat" in (lt, rt):
                     a, b = self.as_rat(l, lt), self.as_rat(r, rt)
                     if a and b:
@@ -1386,6 +1393,19 @@ class _Reducer:
         if isinstance(fn, ast.Lambda):
             return self.ret(fn.body, env)
         return self.body(fn.body, env)
+
+    def translate_method(self, fn):
+        """a whole-column reduction of `Vector`: `self._underlying` is the list of values, the 2-D branch is skipped"""
+        names = [a.arg for a in fn.args.args]
+        if names[:1] != ["self"] or any(n not in ("self", "population") for n in names):
+            raise TranslateError(f"{self.where}: signature")
+        body = [s for s in fn.body if not (isinstance(s, ast.Expr) and isinstance(s.value, ast.Constant))]
+        if not (body and isinstance(body[0], ast.If) and _u(body[0].test) == "self.ndims() == 2" and not body[0].orelse):
+            raise TranslateError(f"{self.where}: 2-D guard")
+        env = {"self._underlying": "listoptint", "@self._underlying": "vals"}
+        if "population" in names:
+            env["population"] = "boolint"
+        return self.body(body[1:], env)
 
 
 _RED = {"sum": "int", "count": "int", "min": "optint", "max": "optint", "mean": "optrat", "stdev": "optrat"}
@@ -2050,3 +2070,24 @@ def generate_sort(src_dir):
             "import Serif.Prelude\n\nset_option linter.unusedVariables false\n\nnamespace Serif.Gen.TS\nopen Serif\n\n"
             + "\n\n".join(parts) + "\n\nend Serif.Gen.TS\n")
     return text, errors
+
+
+def translate_vector_reductions(vsrc):
+    tree = ast.parse(vsrc)
+    out = []
+    for name, want in (("sum", "int"), ("min", "optint"), ("max", "optint"), ("mean", "optrat"), ("stdev", "optrat")):
+        f = find_func(tree, name, "Vector")
+        r = _Reducer(f"Vector.{name}")
+        e, t = r.translate_method(f)
+        if t in ("int", "rat") and want.startswith("opt"):
+            e, t = f"some ({e})", "opt" + t
+        if t != want:
+            raise TranslateError(f"Vector.{name}: result type {t}, expected {want}")
+        if r.sqrt != (name == "stdev"):
+            raise TranslateError(f"Vector.{name}: square root")
+        par = "(population : Bool) " if name == "stdev" else ""
+        note = " without its final `** 0.5`" if r.sqrt else ""
+        note += "; `none` = `min()`/`max()` of no values raises ValueError" if name in ("min", "max") else ""
+        out.append(f"/-- translated from the 1-D branch of `Vector.{name}`{note} -/\n"
+                   f"def vector{name.capitalize()}T {par}(vals : List (Option Int)) : {_LTYPE[want]} :=\n  {e}")
+    return out
